@@ -5,6 +5,8 @@
        {Setup, Main, Teardown} x {SysExit(0), SysExit(3), ExpConn, ExpUds,
                                   Unexpected, CtrlC, KbdInt}
        (PreHook, HookFails) (PostHook, HookFails) (DbOpen, DbFails) (DbClose, DbFails)
+       (LockWait, CtrlC)   the lock file is held by another run, Ctrl-C while waiting for it
+                           (lock file on only)
      x where in {pre, post} for failures raised in setup/teardown of the
        scanner kinds (before / after the base class' part). *)
 EXTENDS RunLifecycle
@@ -14,15 +16,18 @@ Fails ==
   \cup {<<p, h, 0>> : p \in RunPoints, h \in RaisedHows \ {"SysExit"}}
   \cup {<<p, "SysExit", n>> : p \in RunPoints, n \in {0, 3}}
   \cup {<<"PreHook", "HookFails", 0>>, <<"PostHook", "HookFails", 0>>,
-        <<"DbOpen", "DbFails", 0>>, <<"DbClose", "DbFails", 0>>}
+        <<"DbOpen", "DbFails", 0>>, <<"DbClose", "DbFails", 0>>,
+        <<"LockWait", "CtrlC", 0>>}
 
 Wheres(k, f) == IF k \in ScannerKinds /\ f[1] \in {"Setup", "Teardown"} /\ f[2] \in RaisedHows
                 THEN {"pre", "post"} ELSE {"pre"}
 
-MCCases ==
+AllCases ==
   UNION { { [kind |-> k, art |-> a, db |-> d, lock |-> l, hooks |-> h,
              point |-> f[1], how |-> f[2], n |-> f[3], where |-> w] : w \in Wheres(k, f) } :
           k \in Kinds, a \in BOOLEAN, d \in BOOLEAN, l \in BOOLEAN, h \in BOOLEAN, f \in Fails }
+\* nobody waits for a lock file that is not configured
+MCCases == {c \in AllCases : c.point = "LockWait" => c.lock}
 
 \* spec -> code export: one initial state per case, printed with the final state the
 \* design layer expects (Predict = the fold of the same Step functions the machine
